@@ -207,6 +207,9 @@ Definition run_sexp (spec : bool) (e : sexp) : sexp :=
             match compile q, option_map (fun c => peephole_arr (tailrec c)) (compile_raw q), compile_tco q with
             | Some c, Some c2, Some c3 =>
                         let mine := SList (map enc_instr c) in
+                        if negb (match compile_raw_g true q, compile_raw q with
+                                 | Some r1, Some r2 => side_okb r1 && side_okb r2 | _, _ => false end)
+                        then bad "model-peephole-side-conditions" mine else
                         if negb (sexp_eqb mine (SList (map enc_instr c2))) then bad "model-peephole-variants-differ" mine
                         else if negb (sexp_eqb mine (SList (map enc_instr c3))) then bad "model-tailrec-variants-differ" (SList (map enc_instr c3))
                         else if sexp_eqb mine (SList impl) then A "ok" else bad "code" mine
